@@ -17,6 +17,7 @@ import (
 type Replay struct {
 	Config  Config `json:"config"`
 	Choices []int  `json:"choices"`
+	POR     bool   `json:"por,omitempty"` // the choices index the sleep-set-reduced transition lists
 }
 
 // Exec is the result of one execution on the virtual scheduler.
@@ -29,7 +30,7 @@ type Exec struct {
 }
 
 // RunOne executes the configuration under the strategy and checks the observable clauses.
-func RunOne(F *VFuncs, c Config, strat vsched.Strategy) (*Exec, error) {
+func RunOne(F *VFuncs, c Config, strat vsched.Strategy, por bool) (*Exec, error) {
 	ex := &Exec{Config: c}
 	body, err := VBody(F, c, &ex.Outcome)
 	if err != nil {
@@ -40,9 +41,14 @@ func RunOne(F *VFuncs, c Config, strat vsched.Strategy) (*Exec, error) {
 		size += len(it) + 2
 	}
 	size += c.N*4 + len(c.Pairs)
-	ex.Res = vsched.Run(strat, 40*size+200, body)
+	if por {
+		ex.Res = vsched.RunPOR(strat, 40*size+200, body)
+	} else {
+		ex.Res = vsched.Run(strat, 40*size+200, body)
+	}
 	ex.Log = CanonLog(ex.Res.Log)
 	switch ex.Res.Outcome {
+	case "pruned":
 	case "panic":
 		ex.Bad = append(ex.Bad, "panic: "+ex.Res.Detail)
 	case "deadlock":
@@ -71,6 +77,10 @@ type sysStats struct {
 	MaxTraceLen      int `json:"max_trace_len"`
 	MaxChoicePoints  int `json:"max_choice_points"`
 	NontrivialTraces int `json:"nontrivial_traces"` // at least one item delivered / one function failed or rendezvoused
+	Pruned           int `json:"por_pruned_runs"`   // runs cut by the sleep sets (redundant interleavings)
+	PorConfigs       int `json:"por_dfs_configs"`
+	PorExhaustive    int `json:"por_dfs_configs_exhaustive"`
+	PorSchedules     int `json:"por_dfs_schedules"`
 }
 
 // Violation found on the real (rewritten) code.
@@ -98,8 +108,12 @@ type runner struct {
 	configs map[string]map[string]bool
 }
 
-func (r *runner) record(ex *Exec) {
+func (r *runner) record(ex *Exec, por bool) {
 	st := r.sum.Systems[ex.Config.Sys]
+	if ex.Res.Outcome == "pruned" {
+		st.Pruned++
+		return
+	}
 	st.Executions++
 	st.Events += len(ex.Log)
 	if len(ex.Log) > st.MaxTraceLen {
@@ -141,11 +155,11 @@ func (r *runner) record(ex *Exec) {
 	}
 	b.WriteString("\n")
 	r.ops.WriteString(b.String())
-	ij, _ := json.Marshal(map[string]any{"id": r.id, "config": ex.Config, "choices": picks, "outcome": ex.Res.Outcome})
+	ij, _ := json.Marshal(map[string]any{"id": r.id, "config": ex.Config, "choices": picks, "por": por, "outcome": ex.Res.Outcome})
 	r.index.Write(ij)
 	r.index.WriteString("\n")
 	if len(ex.Bad) > 0 && len(r.sum.Violations) < 20 {
-		r.sum.Violations = append(r.sum.Violations, Violation{Replay{ex.Config, picks}, ex.Bad, traceStrings(ex.Log)})
+		r.sum.Violations = append(r.sum.Violations, Violation{Replay{ex.Config, picks, por}, ex.Bad, traceStrings(ex.Log)})
 	}
 	if len(r.sum.Samples) < 6 && nontrivial && r.id%37 == 1 {
 		r.sum.Samples = append(r.sum.Samples, map[string]any{"config": ex.Config, "choices": picks,
@@ -163,34 +177,52 @@ func traceStrings(log []vsched.Event) []string {
 
 func (r *runner) random(c Config, n int, rng *rand.Rand) error {
 	for i := 0; i < n; i++ {
-		ex, err := RunOne(r.F, c, &vsched.Random{State: rng.Uint64() | 1})
+		ex, err := RunOne(r.F, c, &vsched.Random{State: rng.Uint64() | 1}, false)
 		if err != nil {
 			return err
 		}
 		r.sum.Systems[c.Sys].RandomSchedules++
-		r.record(ex)
+		r.record(ex, false)
 	}
 	return nil
 }
 
-// dfs explores every schedule of the configuration, up to budget executions.
-func (r *runner) dfs(c Config, budget int) error {
+// dfs explores every schedule of the configuration, up to budget executions; with por, one
+// representative per class of interleavings that differ only in the order of independent steps.
+func (r *runner) dfs(c Config, budget int, por bool) error {
 	st := r.sum.Systems[c.Sys]
-	st.DfsConfigs++
+	if por {
+		st.PorConfigs++
+	} else {
+		st.DfsConfigs++
+	}
 	var prefix []int
+	if budget == 0 {
+		return nil
+	}
 	for n := 0; ; n++ {
 		if n >= budget {
 			return nil
 		}
-		ex, err := RunOne(r.F, c, &vsched.Replay{Prefix: prefix})
+		ex, err := RunOne(r.F, c, &vsched.Replay{Prefix: prefix}, por)
 		if err != nil {
 			return err
 		}
-		st.DfsSchedules++
-		r.record(ex)
+		if ex.Res.Outcome != "pruned" {
+			if por {
+				st.PorSchedules++
+			} else {
+				st.DfsSchedules++
+			}
+		}
+		r.record(ex, por)
 		next, ok := vsched.Next(ex.Res.Choices)
 		if !ok {
-			st.DfsExhaustive++
+			if por {
+				st.PorExhaustive++
+			} else {
+				st.DfsExhaustive++
+			}
 			return nil
 		}
 		prefix = next
@@ -241,22 +273,29 @@ func MainV(F *VFuncs) {
 }
 
 func (r *runner) plan(sys string, thorough bool, rng *rand.Rand) error {
-	if sys == "do" {
-		// every failing subset x rendezvous pattern; all schedules where the budget allows
-		for n := 2; n <= 4; n++ {
-			budget := 400
-			if thorough {
-				budget = 200000
-			} else if n == 2 {
-				budget = 5000
+	each := func(cs []Config, budget int, por bool) error {
+		for _, c := range cs {
+			if err := r.dfs(c, budget, por); err != nil {
+				return err
 			}
-			for _, c := range DoConfigs(n) {
-				if err := r.dfs(c, budget); err != nil {
-					return err
-				}
-				if err := r.random(c, 3, rng); err != nil {
-					return err
-				}
+		}
+		return nil
+	}
+	if sys == "do" {
+		// n functions x every failing subset x rendezvous patterns (DoConfigs), then random ones
+		for n := 2; n <= 4; n++ {
+			full, por := 3000, 3000
+			if thorough {
+				full, por = 40000, 200000
+			}
+			if !thorough && n == 4 {
+				full = 0 // too many interleavings for the quick tier: reduced exploration only
+			}
+			if err := each(DoConfigs(n), full, false); err != nil {
+				return err
+			}
+			if err := each(DoConfigs(n), por, true); err != nil {
+				return err
 			}
 		}
 		nr := 150
@@ -264,28 +303,52 @@ func (r *runner) plan(sys string, thorough bool, rng *rand.Rand) error {
 			nr = 3000
 		}
 		for i := 0; i < nr; i++ {
-			if err := r.random(RandomConfig("do", rng, 0, 0, 0), 4, rng); err != nil {
+			if err := r.random(RandomConfig("do", rng, 0, 0, 0), 6, rng); err != nil {
 				return err
 			}
 		}
 		return nil
 	}
-	// exhaustive part
+	one := sys == "fmap" || sys == "dup"
+	// (a) every interleaving, unreduced, for the smallest configurations
+	full := 3000
 	if thorough {
-		for _, c := range SmallConfigs(sys, 2, 2, 1) {
-			if err := r.dfs(c, 300000); err != nil {
-				return err
-			}
+		full = 150000
+	}
+	if err := each(SmallConfigs(sys, 1, map[bool]int{false: 1, true: 2}[thorough], 1), full, false); err != nil {
+		return err
+	}
+	if !one {
+		if err := each(SmallConfigs(sys, 0, 0, 1), full, false); err != nil {
+			return err
 		}
-	} else {
-		for _, c := range SmallConfigs(sys, 2, 1, 1) {
-			if err := r.dfs(c, 1500); err != nil {
+		if sys == "joinsel" || thorough {
+			if err := each(SmallConfigs(sys, 2, 1, 0), full, false); err != nil {
 				return err
 			}
 		}
 	}
-	// random part
-	nc, ns, maxIn, maxItems := 120, 6, 3, 3
+	// (b) every interleaving up to commutation of independent steps (sleep sets)
+	por := 2500
+	if thorough {
+		por = 300000
+	}
+	if one {
+		if err := each(SmallConfigs(sys, 1, map[bool]int{false: 3, true: 4}[thorough], 2), por, true); err != nil {
+			return err
+		}
+	} else {
+		if err := each(SmallConfigs(sys, 2, 2, 1), por, true); err != nil {
+			return err
+		}
+		if thorough || sys == "joinsel" {
+			if err := each(SmallConfigs(sys, 3, 1, 1), por, true); err != nil {
+				return err
+			}
+		}
+	}
+	// (c) random deeper configurations, random schedules
+	nc, ns, maxIn, maxItems := 100, 6, 3, 3
 	if thorough {
 		nc, ns, maxIn, maxItems = 2500, 8, 4, 5
 	}
@@ -316,7 +379,7 @@ func replayMain(F *VFuncs, path string) int {
 	} else if err := json.Unmarshal(data, &rp); err != nil {
 		fatal(err)
 	}
-	ex, err := RunOne(F, rp.Config, &vsched.Replay{Prefix: rp.Choices})
+	ex, err := RunOne(F, rp.Config, &vsched.Replay{Prefix: rp.Choices}, rp.POR)
 	if err != nil {
 		fatal(err)
 	}
